@@ -1368,8 +1368,10 @@ def rule_I9(ctx):
                         builds.append(norm(v)[:40])
                     elif isinstance(v, ast.Call) and isinstance(v.func, ast.Name):
                         rr = ctx.prog.resolve(m, v.func.id)
-                        if (rr and rr[0] == "class") or v.func.id in ("list", "dict", "set", "bytearray", "open"):
+                        if (rr and rr[0] == "class") or v.func.id in ("list", "dict", "set", "bytearray", "open", "sorted"):
                             builds.append(norm(v)[:40])
+                    elif isinstance(v, ast.Call) and isinstance(v.func, ast.Attribute) and v.func.attr in ("readlines", "split", "rsplit", "splitlines", "copy", "tolist", "findall"):
+                        builds.append(norm(v)[:40])  # a new list per call - which the callers are free to consume
             ok = not builds
             ctx.ob("I9", fn, "object-building functions are not memoised", ok, "" if ok else f"@{nm} on {q}, which returns `{builds[0]}`: every caller gets the same object", inst=f"memo:{m.path}:{q}", file=m.path)
     ctx.ob("I9", ctx.prog.module("smpl_extract/akai/sat.py").tree.body[0], "stream factories were examined for memoising decorators", True, f"{n} decorated functions", inst="examined",
